@@ -13,7 +13,7 @@ PROP = {
             "parseRedisURL (shim) on a corpus + generated URLs with url.Parse's components shipped as oracle. "
             "redis.New against a live miniredis for read/write/connect timeouts in {-1s,-1ns,0,3s}^3 (+ minInt64, 500ms thorough): announce, scrape, delete must work. "
             "A validation case is trivial when nothing was defaulted (tags 1000, 2000, 3000, 4000); distinct = distinct input JSON",
-    "tags": {"1000+b": "http Validate, b = bit set of defaulted fields (1 read, 2 write, 4 idle, 8 max_numwant, 16 default_numwant, 32 max_scrape)",
+    "tags": {"9000": "configuration surface (options per component)", "1000+b": "http Validate, b = bit set of defaulted fields (1 read, 2 write, 4 idle, 8 max_numwant, 16 default_numwant, 32 max_scrape)",
              "2000+b": "udp Validate, b = bit set (1 skew[never], 2 max_numwant, 4 default_numwant, 8 max_scrape, 16 key generated)",
              "3000+b": "memory Validate, b = bit set (1 gc, 2 prometheus, 4 lifetime, 8 shards)",
              "4000+b": "redis Validate, b = bit set (1 gc, 2 prometheus, 4 lifetime, 8 read, 16 write, 32 connect, 64 broker)",
@@ -22,7 +22,7 @@ PROP = {
              "6200": "redis url refused", "6201": "redis url db 0", "6202": "redis url db != 0", "6301": "live redis store, all timeouts valid", "6302": "live redis store, some timeout defaulted"},
     "trivial_tags": [1000, 2000, 3000, 4000],
     "min_tags": 150,
-    "reasons": {"1": "a governed timeout/interval/limit of the validated configuration is not positive, or the shard count is not positive / cannot be doubled without overflow",
+    "reasons": {"120": "a component's configuration has an option the model does not list (or lacks one it lists): behaviour may now depend on configuration the model says nothing about", "1": "a governed timeout/interval/limit of the validated configuration is not positive, or the shard count is not positive / cannot be doubled without overflow",
                 "2": "a value that was already valid was changed by validation",
                 "3": "validating twice changed something more",
                 "4": "validation changed a field it does not govern",
